@@ -341,6 +341,54 @@ theorem acknowledged_recipient_never_lost (cfg : Cfg) (ps : List Pol) (e : Polic
   rw [hnn] at this
   exact this
 
+/-- The labels of an enqueue call ask nothing of the environment (no announcement, no relay answer among them) … -/
+theorem labels_quiet (c : Call) : ∀ l ∈ labels c, quiet l := by
+  intro l hl
+  simp only [labels, List.mem_append] at hl
+  rcases hl with h | h
+  · -- a write label
+    have : ∀ (es : List Policy.Env) (ws : List W), l ∈ writeLabels c.now c.nonNull es ws → quiet l := by
+      intro es
+      induction es with
+      | nil => intro ws h; cases ws <;> simp [writeLabels] at h
+      | cons e es ih =>
+        intro ws h
+        cases ws with
+        | nil => simp [writeLabels] at h
+        | cons w ws =>
+          cases w with
+          | ok id =>
+            simp only [writeLabels, List.mem_cons] at h
+            rcases h with rfl | h
+            · trivial
+            · exact ih ws h
+          | queueError r => simp only [writeLabels] at h; exact ih ws h
+          | otherExc => simp only [writeLabels] at h; exact ih ws h
+    exact this _ _ h
+  · split at h
+    · have : ∀ (ws : List W), l ∈ handoffLabels ws → quiet l := by
+        intro ws
+        induction ws with
+        | nil => intro h; simp [handoffLabels] at h
+        | cons w ws ih =>
+          intro h
+          cases w with
+          | ok id =>
+            simp only [handoffLabels, List.mem_cons] at h
+            rcases h with rfl | h
+            · trivial
+            · exact ih h
+          | queueError r => simp only [handoffLabels] at h; exact ih h
+          | otherExc => simp [handoffLabels] at h
+      exact this _ h
+    · simp at h
+
+/-- … so a run of the machine over them, from any state a history has reached, is a history: the composed statements above apply
+    to `Queue.enqueue` as it runs when nothing else happens in between, with `ls ++ labels c` as the history. -/
+theorem enqueue_call_is_a_history {q0 q1 q : State} {ls : List Label} (c : Call) (h : ReachT fb q0 ls q1)
+    (hrun : QM.run fb q1 (labels c) = some q) : ReachT fb q0 (ls ++ labels c) q :=
+  reachT_of_run (labels c) ls q1 q h (labels_quiet c) hrun
+
 /-! non-vacuity: a message for three recipients in two domains through the domain split, both writes taken, hand-offs made -/
 def demoCfg : Cfg := { domKey := fun v => some (v % 2), subn := fun _ v => (v, 0, true) }
 def demoEnv : Policy.Env := { eid := 0, sender := 1, body := 2, rcpts := [(0, 10), (1, 11), (2, 12)], hdrs := [] }
